@@ -25,6 +25,18 @@ func builtinGlobalEval(call FunctionCall) Value {
 		// Not a direct call to eval, so we enter the global ExecutionContext
 		rt.enterGlobalScope()
 		defer rt.leaveScope()
+	} else {
+		// A direct call runs in the caller's context (10.4.2) and enters no scope of its own:
+		// count the level on the caller's scope for as long as the eval code runs, or code that
+		// evals itself (var s = 'eval(s)'; eval(s)) is not stopped by the stack depth limit.
+		scop := rt.scope
+		if rt.stackLimit != 0 && scop.depth+1 >= rt.stackLimit {
+			panic(rt.panicRangeError("Maximum call stack size exceeded"))
+		}
+		scop.depth++
+		defer func() {
+			scop.depth--
+		}()
 	}
 	returnValue := rt.cmplEvaluateNodeProgram(program, true)
 	if returnValue.isEmpty() {
